@@ -140,10 +140,13 @@ def spec_equal_aff(c):
     return {"return": 1 if (ex and ey) else 0}
 
 
-def spec_is_on_curve(c):
-    x, y = c.inp("this.x"), c.inp("this.y")
-    B = c.curve_b
-    return {"return": 1 if c.truth_of_zero(y * y - (x * x * x + B)) else 0}
+def spec_is_on_curve_for(F):
+    def spec(c):
+        x, y = c.inp("this.x"), c.inp("this.y")
+        # b = 4 on G1; on G2 the constant 4(u+1), an element of the abstract base ring (its value is a closed fact, checked below)
+        B = Poly.const(4) if F == "Fq" else Poly.var("K:g2_b_coeff_var")
+        return {"return": 1 if c.truth_of_zero(y * y - (x * x * x + B)) else 0}
+    return spec
 
 
 def inf_cases(names):
@@ -173,3 +176,55 @@ def units():
         us.append(mk(af + "::negate", spec_negate_aff, cases=inf_cases(["a"])))
         us.append(mk(af + "::equal", spec_equal_aff, cases=inf_cases(["a", "b"])))
     return us
+
+
+# ---------------------------------------------------------------------------
+# C09 / C10: y recovery from x (sign chosen by the lexicographic comparison of y and -y) and the curve equation test
+def spec_get_point_from_x(greater, checked):
+    def spec(c):
+        x = c.inp("x")
+        leg = [d for (lab, d) in c.trace if isinstance(lab, tuple) and lab[0] == "legendre"]
+        if checked and leg and leg[0] == -1:
+            return {"return": 0}
+        if checked and not leg:
+            raise SpecUndetermined("validating recovery must test whether x^3 + b is a square")
+        yo = c.post["this.y"]
+        roots = [v for v in (yo.vars() if isinstance(yo, Poly) else []) if v.startswith("sqrt#")]
+        if len(roots) != 1:
+            return {"return": 1, "rel:y is a square root of x^3 + b": Poly.var("no-root")}
+        S = Poly.var(roots[0])
+        cmpd = [d for (lab, d) in c.trace if isinstance(lab, tuple) and lab[0] == "compare"]
+        if yo == S:
+            sign = cmpd[0] if cmpd else None
+        elif yo == -S:
+            sign = -cmpd[0] if cmpd else None
+        else:
+            return {"return": 1, "rel:y is +-sqrt(x^3 + b)": yo * yo - S * S}
+        out = {"return": 1, "this.x": x, "this.infinity": 0}
+        if sign is None:
+            raise SpecUndetermined("the sign of y was never compared with -y")
+        if sign != 0:
+            out["rel:(y > -y) == greater"] = Poly.const(0 if ((sign == 1) == bool(greater)) else 1)
+        return out
+    return spec
+
+
+def more_units():
+    us = []
+    for F, T in INST.items():
+        af = T["aff"]
+        used = [F + "::" + m for m in ("square", "multiply", "add", "negate", "copy", "square_root (some root of a square)", "legendre", "compare (total order, antisymmetric)")]
+        for greater in (0, 1):
+            for checked in (0, 1):
+                us.append(RingUnit(af + "::get_point_from_x", ["C09", "C10"], dom(F), spec_get_point_from_x(greater, checked), contracts_used=used,
+                                   label=af + "::get_point_from_x[greater=%d,checked=%d]" % (greater, checked), scalar_args={"greater": greater, "checked": checked},
+                                   patterns=lambda p: True))
+        us.append(RingUnit(af + "::is_on_curve", ["C09", "C05"], dom(F), spec_is_on_curve_for(F), contracts_used=used))
+    return us
+
+
+_cu0 = units
+
+
+def units():
+    return _cu0() + more_units()
